@@ -311,7 +311,12 @@ def signature(case, obs, msg):
     if case["finish"][0] == "read_chunked" and case["calls"] and case["framing"] == "chunked":
         sig["kind"] = "read_chunked-after-partial-read"
     if case["framing"] == "chunked" and any(c[0] in ("spiece", "sdrop") for c in case["calls"]):
-        sig = {"kind": "read-after-partial-stream-of-a-chunked-body"}
+        # the finding: a dropped generator, or a read()-family call (also the finishing read()) after the piece; a piece followed by
+        # nothing but further stream() / iteration goes on through read_chunked() and must work
+        last = max(i for i, c in enumerate(case["calls"]) if c[0] in ("spiece", "sdrop"))
+        later = [c[0] for c in case["calls"][last + 1:]]
+        if any(c[0] == "sdrop" for c in case["calls"]) or any(x in ("read", "read1", "readinto") for x in later) or case["finish"][0] in ("read", "none", "data", "read_chunked"):
+            sig = {"kind": "read-after-partial-stream-of-a-chunked-body"}
     return sig
 
 
